@@ -85,6 +85,20 @@ def conditions(v, path=""):
             out.append(("eq", f["x"].f["target"].p, values_len(f["target"].f["x"]), f"INV_ARR{path}: x.target == |target.x|"))
         elif ty in (IT_FF, IT_SF):
             out += conditions(f["values"], path + ".values")
+        elif ty == LH:
+            n = t_len(f["nodes"].t)
+            out.append(("eq", t_len(f["edges"].t), t_len(f["adjacency"].t), f"INV_LAXH{path}: len(edges) == len(adjacency)"))
+            out.append(("elbound", f["adjacency"].t, "sources", n, f"INV_LAXH{path}: edge sources < |nodes|"))
+            out.append(("elbound", f["adjacency"].t, "targets", n, f"INV_LAXH{path}: edge targets < |nodes|"))
+            q = f["quotient"]
+            out.append(("bound", q.items[0].t, n, f"INV_LAXH{path}: quotient.0 < |nodes|"))
+            out.append(("bound", q.items[1].t, n, f"INV_LAXH{path}: quotient.1 < |nodes|"))
+            out.append(("eq", t_len(q.items[0].t), t_len(q.items[1].t), f"INV_LAXH{path}: quotient lists paired"))
+        elif ty == LOH:
+            out += conditions(f["hypergraph"], path + ".hypergraph")
+            n = t_len(f["hypergraph"].f["nodes"].t)
+            out.append(("bound", f["sources"].t, n, f"INV_LAXOH{path}: sources < |nodes|"))
+            out.append(("bound", f["targets"].t, n, f"INV_LAXOH{path}: targets < |nodes|"))
         else:
             for k, x in f.items():
                 out += conditions(x, path + "." + k)
@@ -106,6 +120,38 @@ def assume_inv(I, st, v):
             st.add_eq(as_poly(c[1]) - as_poly(c[2]))
         elif c[0] == "ge":
             st.add_ge(as_poly(c[1]) - as_poly(c[2]))
+        elif c[0] == "elbound":
+            if c[1][0] == "v":
+                st.add_bound(("el", c[1], c[2]), c[3])
+
+
+def elems_bounded(st, T, fld, B, depth=0):
+    """Every element of the record list T has its field `fld` (a sequence) bounded by B."""
+    import lax_model
+    op = T[0]
+    if op == "empty":
+        return True
+    if op == "v":
+        return prove_bound(st, ("el", T, fld), B)
+    if op == "concat":
+        return all(elems_bounded(st, p, fld, B, depth + 1) for p in T[1:])
+    if op in ("lmap", "single"):
+        body = lax_model.thaw(T[2] if op == "lmap" else T[1])
+        if isinstance(body, VRec) and fld in body.f and isinstance(body.f[fld], VSeq):
+            return prove_bound(st, body.f[fld].t, B)
+        return False
+    if op == "upd":
+        # one element's field replaced
+        if not elems_bounded(st, T[1], fld, B, depth + 1):
+            return False
+        if T[3] == (fld,):
+            nv = lax_model.thaw(T[4])
+            return isinstance(nv, VSeq) and prove_bound(st, nv.t, B)
+        return True
+    if op == "list":
+        tpl = lax_model.TEMPLATES_GLOBAL.get(T)
+        return False
+    return False
 
 
 def check_inv(I, st, fr, node, v, what):
@@ -118,6 +164,9 @@ def check_inv(I, st, fr, node, v, what):
         elif c[0] == "eq":
             ok = st.eq(c[1], c[2])
             goal = f"{c[3]} :: {show_poly(as_poly(c[1]))} == {show_poly(as_poly(c[2]))}"
+        elif c[0] == "elbound":
+            ok = elems_bounded(st, c[1], c[2], c[3])
+            goal = f"{c[4]} :: every {c[2]} of {show_term(c[1])[:200]} < {show_poly(as_poly(c[3]))}"
         else:
             ok = st.ge(c[1], c[2])
             goal = f"{c[3]} :: {show_poly(as_poly(c[1]))} >= {show_poly(as_poly(c[2]))}"
@@ -149,7 +198,14 @@ def _sym(I, st, tyd, name, depth):
     if k == "ref" or k == "ptr":
         return _sym(I, st, I.facts.ty(tyd["inner"]), name, depth)
     if k in ("slice", "array"):
-        return VSeq(leaf(name))
+        lf = leaf(name)
+        et = I.facts.ty(tyd["inner"])
+        import lax_model
+        if et["k"] == "param":
+            lax_model.LABEL_LEAVES.add(lf)
+        elif et["k"] == "adt" and et["path"] in I.facts.structs and et["path"].split("::")[-1] not in ("NodeId", "EdgeId"):
+            lax_model.LIST_ELEM[lf] = ("struct", tyd["inner"])
+        return VSeq(lf)
     if k == "tuple":
         return VTup([_sym(I, st, I.facts.ty(t), f"{name}.{i}", depth + 1) for i, t in enumerate(tyd["items"])])
     if k == "alias":
@@ -169,10 +225,30 @@ def _sym(I, st, tyd, name, depth):
     if k == "adt":
         p = tyd["path"]
         if p.endswith("vec::Vec") or p.endswith("VecArray"):
-            return VSeq(leaf(name))
+            lf = leaf(name)
+            import lax_model
+            if tyd["args"]:
+                et = I.facts.ty(tyd["args"][0])
+                if et["k"] == "adt" and et["path"] == LEDGE:
+                    lax_model.LIST_ELEM[lf] = "hyperedge"
+                elif et["k"] == "param":
+                    lax_model.LABEL_LEAVES.add(lf)
+                elif et["k"] == "adt" and et["path"] in I.facts.structs and et["path"].split("::")[-1] not in ("NodeId", "EdgeId"):
+                    lax_model.LIST_ELEM[lf] = ("struct", tyd["args"][0])
+            return VSeq(lf)
         if p == "std::option::Option":
             return VTop("option param " + name)
-        if p.endswith("boxed::Box") or p.endswith("rc::Rc") or p.endswith("cell::RefCell"):
+        if p.endswith("rc::Rc"):
+            # shared heap cell: the value lives in a heap slot, the handle is a reference to it
+            inner_t = I.facts.ty(tyd["args"][0])
+            if inner_t["k"] == "adt" and inner_t["path"].endswith("cell::RefCell"):
+                inner_t = I.facts.ty(inner_t["args"][0])
+            root = ("heap", name)
+            if root not in st.env:
+                st.env[root] = _sym(I, st, inner_t, name, depth + 1)
+                assume_inv(I, st, st.env[root])
+            return VMutRef((root, ()))
+        if p.endswith("boxed::Box") or p.endswith("cell::RefCell"):
             if tyd["args"]:
                 return _sym(I, st, I.facts.ty(tyd["args"][0]), name, depth)
             return VUser(name)
@@ -190,6 +266,15 @@ def _sym(I, st, tyd, name, depth):
                 ft = subst_ty(I, ft, sub, sd["generics"], tyd["args"])
                 fields[f["name"]] = _sym(I, st, ft, f"{name}.{f['name']}", depth + 1)
             v = VRec(p, fields)
+            if p == "lax::var::var::Var":
+                # every Var of one builder shares the builder state
+                root = ("heap", "builder")
+                if root not in st.env:
+                    st.env[root] = st.env[v.f["state"].place[0]]
+                v = v.with_field("state", VMutRef((root, ())))
+                oh = st.env[root]
+                if isinstance(oh, VRec) and oh.ty == LOH:
+                    st.add_ge(t_len(oh.f["hypergraph"].f["edges"].t) - v.f["edge_id"].p - 1)
             return post_sym(I, st, v, name)
         return VUser(name)
     if k in ("closure", "fnptr", "dyn", "fndef"):
@@ -247,10 +332,44 @@ def call_override(I, fn, vals, st, fr, e):
         F = vals[0]
         while isinstance(F, VMutRef):
             F = I.read_place(st, F.place)
+        if isinstance(F, VRec) and F.ty.endswith("lax::functor::dyn_functor::DynFunctor"):
+            # the strict machinery applied to a lax functor wrapped as DynFunctor: DynFunctor's
+            # object/operation maps are analysed on their own (well-formedness, totality); that they
+            # meet the strict contract A_F1/A_F2 rests on the lax functor's documented consistency
+            import contracts
+            contracts.use(I, "A_DYN")
+            inner = F.f.get("inner")
+            return contracts.h_map_arrow(I, st, fr, e, None, [VUser(("dyn", contracts.fkey(inner))), vals[1]])
         if isinstance(F, VRec) and F.ty.endswith("strict::functor::optic::Optic"):
             # The optic's own object/operation maps are checked against their typing separately
             # (map_object, map_operations, adapt); that they form a functor is not decided.
             import contracts
             contracts.use(I, "A_OF")
-            return contracts.h_map_arrow(I, st, fr, e, None, [VUser("Optic"), vals[1]])
+            return optic_map_arrow_summary(I, st, fr, e, F, vals[1])
     return None
+
+
+def optic_map_arrow_summary(I, st, fr, e, F, f):
+    """define_map_arrow(optic, f): a well-formed diagram of type Optic::map_object(source f) ->
+    Optic::map_object(target f) (assumption A_OF; the object map itself is the crate's)."""
+    import contracts
+    while isinstance(f, VMutRef):
+        f = I.read_place(st, f.place)
+    mo = None
+    for p, fn in I.facts.fns.items():
+        if p.endswith("Functor<K, O1, A1, O2, A2>>::map_object") and "optic::Optic<" in p:
+            mo = fn
+    fw = f.f["h"].f["w"].f["0"].t
+    name = ("user", "map_arrow", "Optic", fw, f.f["s"].f["table"].t, f.f["t"].f["table"].t)
+    v = contracts.fresh_strict_oh(I, st, name)
+    w = v.f["h"].f["w"].f["0"].t
+    for leg in ("s", "t"):
+        ty_in = mk_gather(st, fw, f.f[leg].f["table"].t)
+        outs = I.call_fn(mo, [F, VRec(SEMI, {"0": VSeq(ty_in)})], st, fr, e)
+        normal = [(s2, r) for (s2, r, c) in outs if c is None]
+        s2, r = normal[-1]
+        ty_out = r.f["values"].f["0"].t
+        legt = ("gather", w, v.f[leg].f["table"].t)
+        st.teq = st.teq + ((legt, normalise(st, ty_out)),)
+        st.add_eq(t_len(legt) - t_len(ty_out))
+    return [(st, v, None)]
